@@ -25,6 +25,12 @@ def monitor(case, il, sl):
     v = refmon.check_no_misdelivery(tr)
     if v:
         return (v[0], "c03-misdelivery")
+    # a compliant frame (per the reference dispatch table) must not end the connection: the message
+    # it belongs to - and everything after it - would never be delivered
+    from props import c07
+    v = c07.monitor(case, il, sl)
+    if v and v[1] == "c07-table" and v[0].startswith("legal frame"):
+        return ("%s: the content it belongs to is never delivered" % v[0], "c03-compliant-frame-rejected")
     for f in (monitors.consumers, monitors.replies, monitors.listeners):
         v = f(tr, rr, "c03-delivery")
         if v:
@@ -83,7 +89,7 @@ def gen_large(tier, seed):
 
 
 def suites(tier, seed):
-    return [Suite("large-bodies", "machine", lambda: gen_large(tier, seed), monitor=monitor, nontrivial=lambda c, il: True, canon=mg.canon_nondet, candidate_ok=mg.candidate_ok, shards=4,
+    return [Suite("large-bodies", "machine", lambda: gen_large(tier, seed), monitor=monitor, nontrivial=lambda c, il: True, canon=mg.canon_nondet, candidate_ok=mg.candidate_ok, shards=4, shrink=False,
                   rule="one content (delivery / get answer / return) of 4095, 4096, 4097, 65535, 65536, 131064, 131065, 2^20-1, 2^20, 2^20+1 bytes (thorough: also 2^20+131064, 2^21+3, 3*2^20) cut into frames of 64-128 KiB, followed by a second small delivery: delivered once, intact, and the next message after it too"),
             Suite("sessions", "machine", lambda: gen(tier, seed), monitor=monitor, nontrivial=nontrivial, canon=mg.canon_nondet, candidate_ok=mg.candidate_ok,
                   rule="random sessions: 2-6 channels x consumers; deliveries, gets and returns with bodies 0..300 B cut into body frames by every partition style (one / two / single bytes / random / with empty frames), other channels' frames and heartbeats interleaved inside a content, frames fed directly or through the stream with random read cuts and would-block points; queues drained at the end")]
